@@ -6,7 +6,7 @@
 (*   - H : fingerprint -> bucket offset, so that i2 = i1 XOR H[f],           *)
 (* both of which are inputs (chosen nondeterministically by the model, or    *)
 (* learned from the code by probing).  Every random draw of the code is an   *)
-(* explicit argument: startSecond = gen::<bool>(), choices[k] = k-th         *)
+(* explicit argument: startFirst = gen::<bool>() (TRUE: evictions start in the first candidate bucket), choices[k] = k-th         *)
 (* gen_range(0..bucketsize).                                                 *)
 (*                                                                           *)
 (* Two named deviations record behaviour the code had when first read and    *)
@@ -59,14 +59,16 @@ Kick(tbl, log, f, i, H, choices) ==
              [done |-> FALSE, ok |-> FALSE, tbl |-> tbl, kicks |-> 0, f |-> f, i |-> i, log |-> log], Iota(MaxKicks))
 
 \* insert_internal: returns [ok, tbl, log, ret, kicks]
-InsertInternal(tbl, log, H, f, i1, i2, startSecond, choices) ==
+InsertInternal(tbl, log, H, f, i1, i2, startFirst, choices) ==
     LET f1 == FirstFree(tbl, i1, 0) IN
     IF f1 # -1 THEN [ok |-> TRUE, tbl |-> [tbl EXCEPT ![f1] = f], ret |-> TRUE, kicks |-> 0,
                      log |-> IF LogDirectWrites THEN LogCons(f1, 0, log) ELSE log]
     ELSE LET f2 == FirstFree(tbl, i2, 0) IN
     IF f2 # -1 THEN [ok |-> TRUE, tbl |-> [tbl EXCEPT ![f2] = f], ret |-> SecondBucketTrue, kicks |-> 0,
                      log |-> IF LogDirectWrites THEN LogCons(f2, 0, log) ELSE log]
-    ELSE LET r == Kick(tbl, log, f, IF startSecond THEN i2 ELSE i1, H, choices)
+    \* `let mut i = if self.rng.gen::<bool>() { i1 } else { i2 };`  (learned from trace validation on 4-bucket tables:
+    \* two-bucket models cannot tell the two start buckets apart, kicks there only happen when the table is full)
+    ELSE LET r == Kick(tbl, log, f, IF startFirst THEN i1 ELSE i2, H, choices)
          IN [ok |-> r.ok, tbl |-> r.tbl, log |-> r.log, ret |-> TRUE, kicks |-> r.kicks]
 
 \* restore_state: newest entry first
@@ -74,8 +76,8 @@ Restore(tbl, log) ==
     FoldLeft(LAMBDA st, k : [tbl |-> [st.tbl EXCEPT ![st.lst[1]] = st.lst[2]], lst |-> st.lst[3]],
              [tbl |-> tbl, lst |-> log.lst], Iota(log.len)).tbl
 
-Insert(c, H, f, i1, startSecond, choices) ==
-    LET r == InsertInternal(c.tbl, NoLog, H, f, i1, BXor(i1, H[f]), startSecond, choices)
+Insert(c, H, f, i1, startFirst, choices) ==
+    LET r == InsertInternal(c.tbl, NoLog, H, f, i1, BXor(i1, H[f]), startFirst, choices)
     IN IF r.ok THEN [c |-> [tbl |-> r.tbl, n |-> c.n + 1], res |-> "ok", ret |-> r.ret, kicks |-> r.kicks]
        ELSE [c |-> [tbl |-> Restore(r.tbl, r.log), n |-> c.n], res |-> "full", ret |-> FALSE, kicks |-> r.kicks]
 
@@ -87,7 +89,7 @@ Delete(c, H, f, i1) ==
        ELSE [c |-> c, res |-> FALSE]
 
 \* union: walk other's slots in index order, first bucket = slot index div B; one shared undo
-\* log and a backup of the count; `script` = <<startSecond, choices>> used by every insert
+\* log and a backup of the count; `script` = <<startFirst, choices>> used by every insert
 RECURSIVE UnionFrom(_, _, _, _, _)
 UnionFrom(acc, o, H, x, script) ==
     IF x = NB * B \/ ~acc.ok THEN acc
